@@ -1,0 +1,22 @@
+//go:build verif
+
+// Machine-checked contracts for package tagclient (comment-only; read by /verif/govc).
+// Property C25: a cluster client request contacts at most three distinct hosts (exactly one for
+// single-attempt calls), all taken from the current host list.
+//
+// The hosts contacted are the keys the range loop visits in `addrs`, the sample of the list the
+// hosts interface just resolved (ghost field `resolved`): ranging over a set visits each member at
+// most once, so the bound on the sample is the bound on the attempts.
+
+package tagclient
+
+//@ func clusterClient.do
+//@   requires cc != nil && cc.hosts != nil
+//@   modifies *
+//@   assert sampled_host: at NewSingleClient#0 :: (addr in addrs) && len(addrs) <= 3 && (forall a string :: (a in addrs) ==> (a in cc.hosts.resolved))
+
+//@ func clusterClient.doOnce
+//@   requires cc != nil && cc.hosts != nil
+//@   modifies *
+//@   assert the_one_sampled_host: at NewSingleClient#0 :: (addr in addrs) && len(addrs) == 1 && (forall a string :: (a in addrs) ==> (a in cc.hosts.resolved))
+//@   loop 0 invariant picked: nseen0 >= 1 ==> (addr in addrs)
